@@ -7,6 +7,10 @@
  *   <end> = e<code>         exit with <code>
  *           s<sig>          kill itself with signal <sig> (core dumps disabled)
  *           t<secs>         sleep <secs> (to be timed out by -u), then exit 0
+ *           y<ms>_e<code>   chatty: write "x\n" every <ms> milliseconds (to be timed out by -u WHILE producing output:
+ *                           pdsh's worker thread then notices the expiry itself at the top of its poll loop); on SIGTERM
+ *                           exit with <code> (the command traps TERM)
+ *           y<ms>_d         chatty, SIGTERM has its default action (a plain command: killed by signal 15)
  *   <end> may be preceded by c<ms>_ : close stdin, stdout and stderr first (pdsh sees EOF on both streams and
  *   goes on to rcmd_destroy -> exec_destroy -> pipecmd_wait while the command is still running), sleep <ms>
  *   milliseconds, and only then end as <end> says
@@ -19,6 +23,9 @@
 #include <sys/resource.h>
 #include <time.h>
 #include <unistd.h>
+
+static int chatty_code;
+static void on_term(int sig) { (void) sig; _exit(chatty_code); }
 
 static int hexval(int c)
 {
@@ -62,6 +69,26 @@ int main(int argc, char **argv)
         while (nanosleep(&ts, &ts) < 0)
             ;
         end = u + 1;
+    }
+    if (end[0] == 'y') {
+        int ms = atoi(end + 1);
+        struct timespec ts = { ms / 1000, (ms % 1000) * 1000000L };
+        char *u = strchr(end, '_');
+        sigset_t none;
+        if (!u)
+            return 207;
+        sigemptyset(&none);
+        sigprocmask(SIG_SETMASK, &none, NULL);
+        if (u[1] == 'e') {
+            chatty_code = atoi(u + 2);
+            signal(SIGTERM, on_term);
+        } else
+            signal(SIGTERM, SIG_DFL);
+        for (;;) {
+            if (write(1, "x\n", 2) != 2)
+                return 208;
+            nanosleep(&ts, NULL);
+        }
     }
     switch (end[0]) {
     case 'e':
